@@ -375,6 +375,8 @@ class GhostDB(object):
         vals = {}
         for col, expr in stmt._values.items():
             name = col.name if hasattr(col, 'name') else str(col)
+            if name in IGNORED_COLUMNS:
+                continue
             t, n, ty = self.term_of(expr, table, key, binds)
             vals[name] = (t, n, ty)
         return vals
@@ -459,7 +461,16 @@ class GhostDB(object):
         table = self.tables[stmt.table.name]
         vals = self._values(stmt, table, None, binds)
         new = table.clone()
-        if table.kty == 'int':
+        if table.kty == 'int' and table.keycols[0] in vals and \
+                vals[table.keycols[0]][0] is not None:
+            # explicit primary key
+            from oslo_db import exception as db_exc
+            from pyvc.values import VList
+            key = vals[table.keycols[0]][0]
+            if self.I.ex.branch(z3.Select(table.exists, key)):
+                self.I.raise_(db_exc.DBDuplicateEntry,
+                              columns=VList([table.keycols[0]]))
+        elif table.kty == 'int':
             key = z3.Int(self.I.ex.fresh_name('newid.' + table.name))
             # A-key: autoincrement ids are fresh and positive
             self.I.ex.assume(z3.And(key > 0, z3.Not(z3.Select(table.exists, key))))
@@ -480,6 +491,8 @@ class GhostDB(object):
         uq = getattr(self, 'unique_check_' + table.name, None)
         if uq is not None:
             uq(vals)
+        if table.name in self.I.registry.get('unique_checks', ()):
+            self._unique_constraints(table, vals)
         new.exists = z3.Store(table.exists, key, z3.BoolVal(True))
         for cn in table.data:
             cty = table.cols[cn][0]
@@ -509,6 +522,33 @@ class GhostDB(object):
             hook(vals, key)
         return ExecResult(rowcount=1,
                           lastrowid=from_term(key, 'int') if table.kty == 'int' else None)
+
+    def _unique_constraints(self, table, vals):
+        """single-column UNIQUE constraints of the real table metadata: an
+        insert of an existing value raises DBDuplicateEntry naming the
+        column (A-key)"""
+        import sqlalchemy as _sa
+        from oslo_db import exception as db_exc
+        from pyvc.values import VList
+        ks = sort_of(table.kty)
+        for c in table.sa.constraints:
+            if not isinstance(c, _sa.UniqueConstraint) or len(c.columns) != 1:
+                continue
+            cn = list(c.columns)[0].name
+            if cn not in vals or vals[cn][0] is None:
+                continue
+            v = vals[cn][0]
+            k = z3.Const('k!uq.' + table.name, ks)
+            same = z3.And(z3.Select(table.exists, k),
+                          z3.Select(table.data[cn], k) == v)
+            if cn in table.null:
+                same = z3.And(same, z3.Not(z3.Select(table.null[cn], k)))
+            if self.I.ex.branch(z3.Bool(self.I.ex.fresh_name('dup.' + cn))):
+                w = z3.Const(self.I.ex.fresh_name('w.uq'), ks)
+                self.I.ex.assume(z3.substitute(same, (k, w)))
+                self.I.raise_(db_exc.DBDuplicateEntry, columns=VList([cn]))
+            self.I.ex.hyp(ops.forall([k], z3.Not(same),
+                                     patterns=[z3.Select(table.exists, k)]))
 
     def _column_default(self, table, cn):
         c = table.sa.columns[cn]
